@@ -539,6 +539,30 @@ theorem readings_agree (b : Bytes) (off len : Nat) (hwf : WellFormedDir b off le
     intro i hi hz
     exact h2 i hi (hwf i (by omega) hz)
 
+/-- `WellFormedDir` only speaks of the `len / 20` records that fit into the window: a bounded, hence
+decidable, statement -/
+theorem wellFormedDir_iff_bounded (b : Bytes) (off len : Nat) :
+    WellFormedDir b off len ↔ ∀ i, i < len / 20 → ftAt b off i = 0 → AllZeroAt b (off + 20 * i) := by
+  unfold WellFormedDir
+  constructor
+  · intro h i hi hz
+    exact h i (by omega) hz
+  · intro h i hi hz
+    exact h i (by omega) hz
+
+instance (b : Bytes) (off len : Nat) : Decidable (WellFormedDir b off len) :=
+  decidable_of_iff _ (wellFormedDir_iff_bounded b off len).symm
+
+/-- the descriptor counts of both readings are bounded by the window, so "the window holds a directory
+of `n` descriptors" is decidable too (for the examples) -/
+instance (b : Bytes) (off len n : Nat) : Decidable (IsImportDir b off len n) :=
+  decidable_of_iff ((n + 1) * 20 ≤ len ∧ (∀ i, i < n → ftAt b off i ≠ 0) ∧ ftAt b off n = 0)
+    ⟨fun ⟨h1, h2, h3⟩ => ⟨h1, h2, h3⟩, fun ⟨h1, h2, h3⟩ => ⟨h1, h2, h3⟩⟩
+
+instance (b : Bytes) (off len n : Nat) : Decidable (IsImportDirZ b off len n) :=
+  decidable_of_iff ((n + 1) * 20 ≤ len ∧ (∀ i, i < n → ¬ AllZeroAt b (off + 20 * i)) ∧ AllZeroAt b (off + 20 * n))
+    ⟨fun ⟨h1, h2, h3⟩ => ⟨h1, h2, h3⟩, fun ⟨h1, h2, h3⟩ => ⟨h1, h2, h3⟩⟩
+
 /-! ### element references of an array reference -/
 
 theorem thunkRefs_eq (f : Fmt) (off n : Nat) :
